@@ -312,6 +312,27 @@ func runC08(c *mon.Ctx) {
 			try(fmt.Sprintf("bufio=%d", bs), s.Bytes, DemuxCfg{PacketSize: 188, Reader: "bufio", BufioSize: bs, API: api}, false, "full+small-bufio")
 			c.Count("small_bufio_runs")
 		}
+		// (b4) a stream that ends inside the 193 bytes detection looks at: one whole packet and the first bytes of a truncated one
+		// (a truncated final packet is the end of the stream, C03). The sync byte of the second packet is there, detection has what it
+		// needs, and every reader kind must return the one packet
+		for _, e := range []int{1, 3, 4} {
+			short := s.Bytes[:188+e]
+			want := RunDemux(short, DemuxCfg{PacketSize: 188, Reader: "seek", API: "packet"})
+			for _, rd := range []string{"seek", "bufio"} {
+				for _, bs := range []int{0, 64} {
+					if rd == "seek" && bs != 0 {
+						continue
+					}
+					run := RunDemux(short, DemuxCfg{Reader: rd, BufioSize: bs, API: "packet"})
+					c.Count("short_stream_detections")
+					if run.Panic != "" {
+						c.Violate("C08/panic:"+rd+"/auto/short-stream", "streams", i, run.Panic, nil)
+					} else if d := itemsEqual(run.Items, want.Items); d != "" {
+						c.Violate(fmt.Sprintf("C08/differs-from-baseline:%s/auto/short-stream", rd), "streams", i, fmt.Sprintf("188+%d bytes, bufio size %d: %s", e, bs, d), map[string]any{"stream": mon.Hex(short, 200)})
+					}
+				}
+			}
+		}
 		// ... and with the size detected: a bufio.Reader is a bufio.Reader whatever its buffer holds (one packet is a natural choice),
 		// detection must not lose or alter a packet
 		for _, bs := range []int{16, 64, 188, 192} {
